@@ -295,6 +295,11 @@ def run_shard(ctx):
             ctx.evaluations += 1
             if t.is_in_tree(fn):
                 bad("foreign", "foreign node reported in tree")
+            try:
+                if t.is_root(fn):
+                    bad("foreign", "a node outside the tree is reported as the root")
+            except KeyError:
+                pass
             for name, call in (
                 ("get_parent", lambda: t.get_parent(fn)),
                 ("get_parent_info", lambda: t.get_parent_info(fn)),
